@@ -114,6 +114,7 @@ type PipelineDef struct {
 }
 
 type Prog struct {
+	NullOuts map[string]bool // "STAGE.out": the stage always returns null for it
 	FileTypes []string
 	Structs   []*StructDef
 	Stages    []*StageDef
